@@ -58,7 +58,7 @@ def run(ctx):
         ctx.mismatch("trace-rejected", "TrackerTrace rejects the recorded history at record %s: %s" % (at, rec),
                      {"kind": "trace", "prefix": trace_prefix(tr, at)})
     # binding demonstration: a corrupted record must be rejected
-    demo = binding_demo(ctx, tr)
+    demo = binding_demo(ctx, tr) if ok else "skipped (recorded trace itself rejected)"
     ctx.finish(rule="behaviour = shortest history reaching one transition of the bounded Tracker graph; "
                "non-trivial = some session's decode table is not the identity (an expunge or exists is pending) "
                "at a compared step; distinct by construction (one per transition)",
